@@ -418,7 +418,7 @@ def configs(tier):
                 for order in orders:
                     if tier == "quick" and kind == "quadratic" and K == 2 and mode == "box" and order == "fi":
                         continue  # undecided within the quick caps; thorough tier only
-                    cfgs.append({"type": "spline", "kind": kind, "K": K, "mode": mode, "box": box, "order": order, "timeout": t, "decide_timeout": 8 if tier == "quick" else 30})
+                    cfgs.append({"type": "spline", "kind": kind, "K": K, "mode": mode, "box": box, "order": order, "timeout": t if K < 3 else 300, "decide_timeout": 8 if tier == "quick" else 30, "bughunt": K == 3 and kind != "linear"})
     for order in ("f", "i", "fi"):
         cfgs.append({"type": "spline", "kind": "rq", "K": 2, "mode": "box", "box": "unit", "floors": True, "order": order, "timeout": t, "decide_timeout": 8})
     for c in CS.cases_for(tier, with_history=True):
